@@ -9,7 +9,7 @@ From Sekai Require Import Base.Prelude Gen.NondetSites Model.Determinism.
 Definition kind_eqb (a b : site_kind) : bool :=
   match a, b with
   | KTimeNow, KTimeNow | KRand, KRand | KMapRange, KMapRange | KPbMap, KPbMap
-  | KMapKeys, KMapKeys | KGo, KGo | KOsEnv, KOsEnv | KRuntime, KRuntime | KProcState, KProcState | KLocalTime, KLocalTime => true
+  | KMapKeys, KMapKeys | KGo, KGo | KOsEnv, KOsEnv | KRuntime, KRuntime | KProcState, KProcState | KLocalTime, KLocalTime | KErrText, KErrText => true
   | _, _ => false
   end.
 
